@@ -295,7 +295,7 @@ theorem dictCheck_le (curr : Frame) (fs : Bool) (rest rest' : Str)
   · simp only [h1, if_false] at h
     cases h; exact Nat.le_refl _
 
-theorem finishValue_next (st : St) (key : Option Str) (idx : Nat) (stack : List Frame) (curr : Frame)
+theorem finishValue_next (st : List Attr) (key : Option Str) (idx : Nat) (stack : List Frame) (curr : Frame)
     (parts : List Part) (rest norm : Str) (st' : St)
     (h : finishValue st key idx stack curr parts rest norm = .next st') :
     st'.rest.length ≤ rest.length ∧ rank st'.phase ≤ 1 := by
@@ -312,7 +312,7 @@ theorem finishValue_next (st : St) (key : Option Str) (idx : Nat) (stack : List 
     · simp only [hk, if_false] at h
       cases h; exact ⟨hle, by simp [rank]⟩
 
-theorem afterClose_next (st : St) (key : Option Str) (idx : Nat) (rest norm : Str) (stack : List Frame)
+theorem afterClose_next (st : List Attr) (key : Option Str) (idx : Nat) (rest norm : Str) (stack : List Frame)
     (st' : St) (h : afterClose st key idx rest norm stack = .next st') :
     st'.rest = rest ∧ rank st'.phase ≤ 1 := by
   unfold afterClose at h
@@ -630,5 +630,21 @@ theorem run_fuel (fuel : Nat) : ∀ st, mu st < fuel → run fuel st ≠ .outOfF
       apply ih
       have := step_decreases st st' hs
       omega
+
+theorem dropWhile_append_of_all (p : Char → Bool) (w r : Str) (hw : ∀ c, c ∈ w → p c = true) :
+    (w ++ r).dropWhile p = r.dropWhile p := by
+  induction w with
+  | nil => rfl
+  | cons c cs ih =>
+    simp only [List.cons_append, List.dropWhile, hw c (by simp)]
+    exact ih (fun d hd => hw d (by simp [hd]))
+
+theorem takeWhile_append_of_all (p : Char → Bool) (w r : Str) (hw : ∀ c, c ∈ w → p c = true) :
+    (w ++ r).takeWhile p = w ++ r.takeWhile p := by
+  induction w with
+  | nil => rfl
+  | cons c cs ih =>
+    simp only [List.cons_append, List.takeWhile, hw c (by simp)]
+    rw [ih (fun d hd => hw d (by simp [hd]))]
 
 end Djc.Proofs.TagParser
